@@ -27,7 +27,13 @@ def judge_prog(req, impl, model, spec, focus=None):
     corr = norm(impl) == norm(model)
     oracle = True
     what = ""
-    if impl.startswith("PANIC"):
+    ns = re.search(r"\(nsched (\d+)\)", req)
+    if ns and iacc:
+        cats.append("distinct-schedules-%s" % ns.group(1))
+    if impl.startswith("NONDETERMINISTIC"):
+        oracle = False
+        what = "two builds of the same program (fresh hash seeds) behaved differently: " + impl[:300]
+    elif impl.startswith("PANIC"):
         oracle = False
         what = "implementation panicked: " + impl[:200]
     elif iacc != sacc:
